@@ -10,6 +10,7 @@ depths >= 1 (excursions >= 1), every component has at least one sample, sample v
 the component's depth, picture numbers 0..2^32-1.
 """
 import contextlib
+from collections import OrderedDict
 import io
 import json
 import os
@@ -96,16 +97,44 @@ def build_vp(spec):
         vp["color_primaries_index"] = r.choice(list(t.PresetColorPrimaries))
         vp["color_matrix_index"] = r.choice(list(t.PresetColorMatrices))
         vp["transfer_function_index"] = r.choice(list(t.PresetTransferFunctions))
+    if spec.get("lo") is not None:
+        vp["luma_offset"] = int(spec["lo"])
+    if spec.get("co") is not None:
+        vp["color_diff_offset"] = int(spec["co"])
     return vp, t.PictureCodingModes(spec["pcm"])
 
 
+def expected_dims(vp, pcm):
+    """Component (width, height, depth_bits, bytes_per_sample) computed HERE from the video parameters and the
+    coding mode -- independent of the implementation's compute_dimensions_and_depths (which is only observed):
+    (11.6.2) subsampling and field rules, (11.6.3) depth = intlog2(excursion + 1) = bit_length(excursion),
+    file format: bytes per sample = least power of two >= ceil(depth / 8)."""
+    w, h = int(vp["frame_width"]), int(vp["frame_height"])
+    cw, ch = w, h
+    cdf = int(vp["color_diff_format_index"])
+    if cdf == 1:
+        cw = w // 2
+    elif cdf == 2:
+        cw, ch = w // 2, h // 2
+    if int(pcm) == 1:
+        h, ch = h // 2, ch // 2
+    out = OrderedDict()
+    for c, (cw_, ch_, exc) in (("Y", (w, h, vp["luma_excursion"])), ("C1", (cw, ch, vp["color_diff_excursion"])),
+                               ("C2", (cw, ch, vp["color_diff_excursion"]))):
+        depth = int(exc).bit_length()
+        need, bps = (depth + 7) // 8, 1
+        while bps < need:
+            bps *= 2
+        out[c] = (cw_, ch_, depth, bps)
+    return out
+
+
 def build_picture(spec, vp=None, pcm=None):
-    cdd = impl()[3]
     if vp is None:
         vp, pcm = build_vp(spec)
     r = random.Random(spec["seed"])
     pic = {"pic_num": spec["picnum"]}
-    for c, (w, h, depth, bps) in cdd(vp, pcm).items():
+    for c, (w, h, depth, bps) in expected_dims(vp, pcm).items():
         top = (1 << depth) - 1
         special = [0, top, 1 << (depth - 1), top >> 1, 1, 0xFF & top, 0x100 & top]
         pic[c] = [[(r.choice(special) if r.random() < 0.4 else r.randint(0, top)) for _ in range(w)] for _ in range(h)]
@@ -131,6 +160,27 @@ def junk_padding(raw, dims, r):
 
 def has_padding(dims):
     return any(8 * bps > depth for (_, _, depth, bps) in dims)
+
+
+# ---- per-process history: a failure may depend on formats seen EARLIER in the same process (stale state), so a
+# violation's replayable input is the sequence of similar earlier cases followed by the failing one ------------------
+HISTORY = []
+
+
+def core_of(kind, spec):
+    a = spec if kind == "file" else spec.get("a") if kind == "compare" else None
+    return None if a is None else (a["w"], a["h"], a["cdf"], a["pcm"], a["lexc"], a["cexc"])
+
+
+def vin(kind, spec):
+    me = core_of(kind, spec)
+    preds = []
+    if me is not None:
+        for h in HISTORY:
+            c = core_of(h["kind"], h["spec"])
+            if c is not None and sum(1 for x, y in zip(c, me) if x == y) >= 3 and h["spec"] is not spec:
+                preds.append(h)
+    return {"sequence": preds[-8:] + [{"kind": kind, "spec": spec}]}
 
 
 # ---- Coq literals -----------------------------------------------------------------------
@@ -236,7 +286,12 @@ def file_case(ctx, files, spec, report=True):
     t, ff, pc, cdd, VideoParameters, _ = impl()
     vp, pcm = build_vp(spec)
     pic = build_picture(spec, vp, pcm)
-    dims = [tuple(v) for v in cdd(vp, pcm).values()]
+    dims = [tuple(v) for v in expected_dims(vp, pcm).values()]      # independent of the implementation
+    try:
+        rdims = [list(v) for v in cdd(vp, pcm).values()]              # observed only (goes to the Coq comparison)
+    except Exception as e:
+        rdims = [[-1, -1, -1, -1]]
+    spec_in = vin("file", spec)
     d = files.fresh()
     name = os.path.join(d, "picture_%d.raw" % spec["picnum"])
     failed = False
@@ -245,7 +300,7 @@ def file_case(ctx, files, spec, report=True):
         pic2, vp2, pcm2 = ff.read(name[:-4] + ".json")
     except Exception as e:  # the property implies no exception
         if report:
-            ctx.violation("file-roundtrip-raises", spec, "write/read raised %r" % (e,), observed=repr(e), expected="round trip")
+            ctx.violation("file-roundtrip-raises", spec_in, "write/read raised %r" % (e,), observed=repr(e), expected="round trip")
         files.done(d)
         return None, True
     ok_types = all(type(v) is int for c in COMPONENTS for row in pic2[c] for v in row) and type(pic2["pic_num"]) is int
@@ -254,7 +309,7 @@ def file_case(ctx, files, spec, report=True):
         if report:
             where = [(c, y, x, pic[c][y][x], pic2[c][y][x]) for c in COMPONENTS for y in range(len(pic[c]))
                      for x in range(len(pic[c][y])) if pic[c][y][x] != pic2[c][y][x]][:3]
-            ctx.violation("file-roundtrip-picture-differs", spec,
+            ctx.violation("file-roundtrip-picture-differs", spec_in,
                           "picture read back differs from the picture written (component, y, x, written, read): %r; "
                           "pic_num %r -> %r; python ints: %s" % (where, pic["pic_num"], pic2["pic_num"], ok_types),
                           observed=str(where), expected="identical values")
@@ -262,17 +317,24 @@ def file_case(ctx, files, spec, report=True):
             or any(type(vp2[k]) is not type(vp[k]) for k in vp):
         failed = True
         if report:
-            ctx.violation("file-roundtrip-metadata-differs", spec, "metadata read back differs: %r vs %r" % (dict(vp2), dict(vp)),
+            ctx.violation("file-roundtrip-metadata-differs", spec_in, "metadata read back differs: %r vs %r" % (dict(vp2), dict(vp)),
                           observed=repr((dict(vp2), pcm2)), expected=repr((dict(vp), pcm)))
     raw = open(name, "rb").read()
+    want_size = sum(w * h * bps for (w, h, _, bps) in dims)
+    if len(raw) != want_size:
+        failed = True
+        if report:
+            ctx.violation("raw-file-size-wrong", spec_in,
+                          "the .raw file has %d bytes; the format implies %d (components w,h,depth,bytes/sample %r; the implementation "
+                          "reported %r)" % (len(raw), want_size, dims, rdims), observed=len(raw), expected=want_size)
     meta_json = json.load(open(name[:-4] + ".json"))
     if meta_json.get("picture_number") != str(spec["picnum"]):
         failed = True
         if report:
-            ctx.violation("metadata-picture-number-not-a-decimal-string", spec, "picture_number in JSON is %r" % (meta_json.get("picture_number"),))
+            ctx.violation("metadata-picture-number-not-a-decimal-string", spec_in, "picture_number in JSON is %r" % (meta_json.get("picture_number"),))
     # same file with random padding bits: the reader must return the same picture
     jr = random.Random(spec["seed"] ^ 0x5A5A)
-    junk = junk_padding(raw, dims, jr)
+    junk = junk_padding(raw, dims, jr) if len(raw) == want_size else raw
     with open(name, "wb") as f:
         f.write(junk)
     try:
@@ -281,16 +343,16 @@ def file_case(ctx, files, spec, report=True):
         junk_pic = None
         failed = True
         if report:
-            ctx.violation("read-with-padding-raises", spec, "read raised %r" % (e,))
+            ctx.violation("read-with-padding-raises", spec_in, "read raised %r" % (e,))
     if junk_pic is not None and junk_pic != pic:
         failed = True
         if report:
-            ctx.violation("padding-bits-not-masked", spec, "padding bits of the raw file leak into the values read")
+            ctx.violation("padding-bits-not-masked", spec_in, "padding bits of the raw file leak into the values read")
     files.done(d)
     if junk_pic is None:
         return None, failed
     lit = "(%s, %s, %s, %s, %s, %s, %s)" % (
-        cformat(vp), cz(int(pcm)), cll([list(x) for x in dims]), cll(flat(pic)), clist(list(raw)), clist(list(junk)), cll(flat(junk_pic)))
+        cformat(vp), cz(int(pcm)), cll(rdims), cll(flat(pic)), clist(list(raw)), clist(list(junk)), cll(flat(junk_pic)))
     return lit, failed
 
 
@@ -302,7 +364,6 @@ VARIANTS = ["same", "samples", "samples1", "padding", "vp-other", "vp-size", "vp
 def make_pair(spec_a, variant, vseed):
     """(meta_a, pic_a, meta_b, pic_b, tweaks) for a compare case; metadata = (vp, pcm, picnum)."""
     t = impl()[0]
-    cdd = impl()[3]
     r = random.Random(vseed)
     vp_a, pcm_a = build_vp(spec_a)
     pic_a = build_picture(spec_a, vp_a, pcm_a)
@@ -310,8 +371,18 @@ def make_pair(spec_a, variant, vseed):
     vp_b, pcm_b = build_vp(spec_b)
     pic_b = build_picture(spec_b, vp_b, pcm_b)
     base = variant.split("+")
+    if "msb_c" in base:      # one colour-difference sample differs in its most significant bit only
+        dims = expected_dims(vp_b, pcm_b)
+        c = r.choice(["C1", "C2"])
+        w, h, depth, bps = dims[c]
+        y, x = r.randrange(h), r.randrange(w)
+        pic_b[c][y][x] ^= 1 << (depth - 1)
+    if "msb_y" in base:
+        w, h, depth, bps = expected_dims(vp_b, pcm_b)["Y"]
+        y, x = r.randrange(h), r.randrange(w)
+        pic_b["Y"][y][x] ^= 1 << (depth - 1)
     if "samples" in base or "samples1" in base:
-        dims = cdd(vp_b, pcm_b)
+        dims = expected_dims(vp_b, pcm_b)
         k = 1 if "samples1" in base else r.randint(1, 6)
         for _ in range(k):
             c = r.choice(COMPONENTS)
@@ -386,10 +457,11 @@ def write_pair(ff, cdd, d, pair, variant, vseed, name_a="a_0.raw", name_b="b_0.r
     base = variant.split("+")
     res = {"meta_a": meta_a, "meta_b": meta_b, "ok_a": True, "ok_b": True, "pa": pa, "pb": pb}
     if "padding" in base:
-        dims = [tuple(v) for v in cdd(meta_b[0], meta_b[1]).values()]
+        dims = [tuple(v) for v in expected_dims(meta_b[0], meta_b[1]).values()]
         raw = open(pb, "rb").read()
-        with open(pb, "wb") as f:
-            f.write(junk_padding(raw, dims, r))
+        if len(raw) == sum(w * h * bps for (w, h, _, bps) in dims):
+            with open(pb, "wb") as f:
+                f.write(junk_padding(raw, dims, r))
     if "nometa_a" in base or "nometa_both" in base:
         os.remove(pa[:-4] + ".json")
         res["meta_a"] = None
@@ -425,6 +497,7 @@ def compare_case(ctx, files, spec, report=True):
     pair = make_pair(spec["a"], spec["variant"], spec["vseed"])
     if pair is None:
         return None, False
+    spec_in = vin("compare", spec)
     d = files.fresh()
     res = write_pair(ff, cdd, d, pair, spec["variant"], spec["vseed"])
     failed = False
@@ -435,7 +508,7 @@ def compare_case(ctx, files, spec, report=True):
     except Exception as e:
         files.done(d)
         if report:
-            ctx.violation("compare-raises", spec, "vc2-picture-compare raised %r" % (e,), observed=repr(e))
+            ctx.violation("compare-raises", spec_in, "vc2-picture-compare raised %r" % (e,), observed=repr(e))
         return None, True
     files.done(d)
     counts = parse_counts(rc, out)
@@ -443,18 +516,18 @@ def compare_case(ctx, files, spec, report=True):
     if (rc == 0) != identical:
         failed = True
         if report:
-            ctx.violation("compare-verdict-wrong", spec,
+            ctx.violation("compare-verdict-wrong", spec_in,
                           "exit status %r (%s) but the pictures/metadata are %s" % (
                               rc, out.strip().split("\n")[0] if out.strip() else err.strip(), "identical" if identical else "different"),
                           observed=rc, expected=0 if identical else "non-zero")
     elif not isinstance(rc, int):
         failed = True
         if report:
-            ctx.violation("compare-exit-status-not-int", spec, "exit status %r" % (rc,))
+            ctx.violation("compare-exit-status-not-int", spec_in, "exit status %r" % (rc,))
     elif exp_counts is not None and rc in (0, 4) and counts != exp_counts:
         failed = True
         if report:
-            ctx.violation("compare-counts-wrong", spec, "reported differing-sample counts %r, actual %r; output:\n%s" % (counts, exp_counts, out),
+            ctx.violation("compare-counts-wrong", spec_in, "reported differing-sample counts %r, actual %r; output:\n%s" % (counts, exp_counts, out),
                           observed=counts, expected=exp_counts)
     if counts is None:
         counts = [-1]
@@ -491,7 +564,7 @@ def dir_case(ctx, files, spec, report=True):
     except Exception as e:
         files.done(d)
         if report:
-            ctx.violation("compare-directories-raises", spec, "raised %r" % (e,))
+            ctx.violation("compare-directories-raises", {"sequence": [{"kind": "dirs", "spec": spec}]}, "raised %r" % (e,))
         return None, True
     files.done(d)
     m = re.search(r"Summary: (\d+) identical, (\d+) different", out)
@@ -501,7 +574,7 @@ def dir_case(ctx, files, spec, report=True):
     if m is None or (rc == 0) != (n_same == len(rows)) or (int(m.group(1)), int(m.group(2))) != (n_same, len(rows) - n_same) or not order_ok:
         failed = True
         if report:
-            ctx.violation("compare-directories-summary-wrong", spec,
+            ctx.violation("compare-directories-summary-wrong", {"sequence": [{"kind": "dirs", "spec": spec}]},
                           "exit status %r, output %r; expected %d identical, %d different" % (rc, out[-200:], n_same, len(rows) - n_same),
                           observed=rc, expected=0 if n_same == len(rows) else "non-zero")
     if m is None:
@@ -620,7 +693,7 @@ def run(ctx):
         except Exception as e:
             ctx.violation("sample-roundtrip-raises", {"depth": depth, "values": [str(v) for v in vals]}, "raised %r" % (e,))
             continue
-        bps = cdd(vp, pcm)["Y"].bytes_per_sample
+        bps = expected_dims(vp, pcm)["Y"][3]
         if back["Y"] != [vals]:
             badv = [(v, b) for v, b in zip(vals, back["Y"][0]) if v != b][:3]
             ctx.violation("sample-roundtrip-differs", {"depth": depth, "values": [str(v) for v in vals]},
